@@ -390,15 +390,33 @@ def sequentialSchedule (queues : List (List Json)) : List Nat :=
 
 /-! ### `CompassApp::run`: which responses reach the sink -/
 
-/-- `CompassApp::run` after input processing.  `queues`: the responses of the queries that passed the input
-plugins, per worker (they go through `run_batch_with(out)_responses`, hence through the sink).
-`inputErrors`: the error responses of the queries that failed input processing — they are chained onto the
-result (`run_query_result.chain(error_inputs)`) and never handed to the sink.  Result: the sink and what the
-caller gets back. -/
+/-- the main thread hands responses to the sink one after the other; `none`: a write failed (the `?` in
+`run` returns the error, or the panic unwinds) -/
+def writeSeq (N : NumOps) : FileSink → List Json → Option (FileSink × List Json)
+  | s, [] => some (s, [])
+  | s, r :: rs =>
+    match s.write N r with
+    | .ok s' r' =>
+      match writeSeq N s' rs with
+      | some (s'', rs') => some (s'', r' :: rs')
+      | none => none
+    | .lockError _ => none
+    | .panic _ => none
+
+/-- `CompassApp::run` after input processing.  `inputErrors`: the error responses of the queries that failed
+input processing; the main thread writes them to the sink first (`for error_response in
+error_inputs.iter_mut() { response_writer.write_response(error_response)?; }`), before any search runs —
+also when no query is left to search (the early return).  `queues`: the responses of the queries that passed
+the input plugins, per worker (`run_batch_with(out)_responses`).  Result: the sink and what the caller gets
+back — search responses first (only under `PersistResponseInMemory`), then the error responses as
+`write_response` left them (under both policies); `none` when writing an error response failed. -/
 def appRun (N : NumOps) (persist : Bool) (sink : FileSink) (queues : List (List Json))
-    (inputErrors : List Json) (schedule : List Nat) : FileSink × List Json :=
-  let final := (Run.init sink queues).exec N persist schedule
-  (final.sink, final.returned.flatten ++ inputErrors)
+    (inputErrors : List Json) (schedule : List Nat) : Option (FileSink × List Json) :=
+  match writeSeq N sink inputErrors with
+  | none => none
+  | some (sink₁, errors') =>
+    let final := (Run.init sink₁ queues).exec N persist schedule
+    some (final.sink, final.returned.flatten ++ errors')
 
 /-! ### CSV reading side: how a reader splits a row -/
 
